@@ -156,6 +156,10 @@ def h1(ctx, R, only=None):
                             "filters", "requires", "result", "hash_comments"):
                         continue
                     target, how = nm, "rebinding"
+                elif isinstance(n, ast.Attribute) and isinstance(n.value, ast.Name) and prog.cls(n.value.id) is not None \
+                        and prog.cls(n.value.id).module.name in ("commands", "parser", "factory", "managesieve"):
+                    # <Class>.<attr> = ... : a class attribute is one object for the whole process, whatever its first value was
+                    target, how = "%s.%s" % (n.value.id, nm), "class attribute bound from a method"
             elif isinstance(n, ast.Subscript) and isinstance(n.ctx, (ast.Store, ast.Del)):
                 base = n.value
                 while isinstance(base, ast.Subscript):
@@ -287,7 +291,9 @@ def h2(ctx, R):
                           witness="a reused Parser starts lexing the new text at the old position")
     # any other state a Lexer method keeps on the object (caches of line offsets, counters) is per input as well
     init_l = R.Lexer.methods.get("__init__")
+    sheads = [x for lp in sloops for x in cfgs.nodes_for(lp) if x.kind == "join"]
     scan_sets = {t.attr for x in cfgs.stmt_nodes() if isinstance(x.ast, (ast.Assign, ast.AnnAssign)) and not any(contains_node(lp, x.ast) for lp in sloops)
+                 and all(cfgs.dominates([x], h, exc=False) for h in sheads)  # before the first token is produced, on every path
                  for t in (x.ast.targets if isinstance(x.ast, ast.Assign) else [x.ast.target]) if isinstance(t, ast.Attribute)}
     kept = {}
     for g in R.Lexer.methods.values():
